@@ -76,6 +76,8 @@ FLAGS = {}          # spec options, e.g. vec_u8_as_list, struct_fields
 OPAQUE = {}         # spec: {'type': LeanName, 'chains': {'a().b()': [rust type, field]}} for trait-object parameters
 EXTERN = {}         # struct name -> namespace of another generated file that defines it (and the functions it owns)
 INT_TYPES = {'u8': 8, 'u16': 16, 'u32': 32, 'u64': 64, 'usize': 64}
+# signed integers: only stored, returned and produced by `as` from an unsigned value (two's complement, `Rs.toSigned`); no arithmetic
+SINT_TYPES = {'i8': 8, 'i16': 16, 'i32': 32, 'i64': 64, 'isize': 64}
 
 
 class P:
@@ -141,7 +143,7 @@ class P:
             if self.at('>>'):      # split
                 self.t[self.i] = ('op', '>'); self.t.insert(self.i, ('op', '>'))
             self.expect('>')
-        if name in INT_TYPES or name == 'bool': return name
+        if name in INT_TYPES or name in SINT_TYPES or name == 'bool': return name
         if name in ('String', 'str'): return 'string'
         if name == 'Box' and args == ['string']: return 'string'
         if name == 'Vec':
@@ -414,7 +416,7 @@ class P:
             if self.peek()[0] == 'op' and self.peek()[1] in ('=', '+=', '-=', '|=', '&=', '*='):
                 op = self.next()[1]
                 r = self.expr()
-                self.expect(';')
+                if not self.at('}'): self.expect(';')          # `{ place op= value }`: a unit-valued tail assignment
                 stmts.append(('assign', e, op, r)); continue
             semi = self.eat(';')
             stmts.append(('expr', e, not semi and self.at('}')))
@@ -623,6 +625,7 @@ class Tr:
 
     def lean_ty(self, ty, self_ty=None):
         if isinstance(ty, str) and (ty in INT_TYPES or ty == 'lit'): return 'Nat'
+        if isinstance(ty, str) and ty in SINT_TYPES: return 'Int'
         if ty == 'bool': return 'Bool'
         if ty == 'bytes': return 'Bytes'
         if ty == 'string': return 'Rs.Str'
@@ -696,6 +699,10 @@ class Tr:
         if k == 'as':
             s, t = self.ex(e[1], env)
             tt = e[2]
+            if tt in SINT_TYPES:
+                if t not in INT_TYPES: raise TranslateError(f'cast from {t} to {tt}')
+                w = SINT_TYPES[tt]
+                return f'(Rs.toSigned {w} ({s} % 2^{w}))', tt
             if tt not in INT_TYPES: raise TranslateError(f'cast to {tt}')
             if t == 'bool': return f'(if {s} then 1 else 0)', tt
             if t == 'lit' or self.width(t) is None or self.width(tt) < self.width(t):
@@ -819,6 +826,7 @@ class Tr:
             a, ta = self.ex(e[2], env, tb)
             ta = tb
         t = ta if ta != 'lit' else tb
+        if ta in SINT_TYPES or tb in SINT_TYPES: raise TranslateError('arithmetic / comparison on a signed integer')
         if op in ('==', '!='):
             if ta == 'bool' or (isinstance(ta, tuple) and ta[0] == 'struct'):
                 return f'({a} {op} {b})', 'bool'
@@ -1130,11 +1138,23 @@ class Tr:
             for pat, guard, body in arms:
                 if guard: raise TranslateError('match guard on enum')
                 en = lean_struct(t[1])
+                env2 = self.fork(env)
                 if pat[0] == 'ppath': lp = '.' + pat[1][-1]
                 elif pat[0] == 'pwild': lp = '_'
                 elif pat[0] == 'por' and all(x[0] == 'ppath' for x in pat[1]): lp = ' | '.join(en + '.' + x[1][-1] for x in pat[1])
+                elif pat[0] == 'pctor':
+                    # `Enum::Variant(a, b)`: the variant's payload types give the types of the bound names
+                    pl = dict(self.it.enums[t[1]]).get(pat[1][-1])
+                    if pl is None or len(pl) != len(pat[2]) or pl == ['struct-like']: raise TranslateError('enum constructor pattern')
+                    ns = []
+                    for sp, pty in zip(pat[2], pl):
+                        if sp[0] == 'pbind':
+                            env2['vars'][sp[1]] = (sp[1], pty); ns.append(sp[1])
+                        elif sp[0] == 'pwild': ns.append('_')
+                        else: raise TranslateError('pattern inside an enum constructor')
+                    lp = '.' + pat[1][-1] + ''.join(' ' + n for n in ns)
                 else: raise TranslateError('enum pattern')
-                b, bt = self.ex(body, self.fork(env), expect)
+                b, bt = self.ex(body, env2, expect)
                 if bt != 'lit': rt = bt
                 out.append(f'| {lp} => {b}')
             return f'(match {s} with ' + ' '.join(out) + ')', rt
@@ -1825,8 +1845,8 @@ def generate(spec, repo):
         if sn in items.enums:
             L.append(f'inductive {sn} where')
             for vn, payload in items.enums[sn]:
-                if payload: raise TranslateError('enum with payload: ' + sn)
-                L.append(f'  | {vn}')
+                if payload == ['struct-like']: raise TranslateError('enum with a struct-like variant: ' + sn)
+                L.append(f'  | {vn}' + ''.join(f' (a{i} : {tr.lean_ty(pt)})' for i, pt in enumerate(payload or [])))
             L.append('  deriving DecidableEq, Repr, Inhabited')
         else:
             fs = items.structs[sn]
